@@ -1574,7 +1574,7 @@ class Lattice3D:
             for i in range(temp_lattice.num_points_x_):
                 for j in range(temp_lattice.num_points_y_):
                     for k in range(temp_lattice.num_points_z_):
-                        if abs(norm) > 1e-15:
+                        if norm > 0.0:
                             temp_lattice.grid_[i, j, k] /= norm
             xi, yi, zi = self.find_closest_indices(x, y, z)
             x_grid, y_grid, z_grid = self.get_coordinates(xi, yi, zi)
